@@ -170,6 +170,10 @@ func (p *Pollard) getNode(pos uint64) (n, sibling, parent *polNode, err error) {
 // GetHash returns the hash for the given position. Empty hash (all values are 0) is returned
 // if the given position does not exist.
 func (p *Pollard) GetHash(pos uint64) Hash {
+	// Positions that cannot exist with the current number of leaves have no hash.
+	if !inForest(pos, p.NumLeaves, TreeRows(p.NumLeaves)) {
+		return empty
+	}
 	return p.getHash(pos)
 }
 
